@@ -456,6 +456,18 @@ def length_sweep(name, data):
         if t == T_BINARY and (k, fid) not in kinds:
             kinds[(k, fid)] = path
     out = []
+    # elements of list<binary> fields (path_in_schema): the first element takes the boundary lengths
+    seen_lb = set()
+    for path, k, fid, t in paths_of(base, "FileMetaData"):
+        f0 = node_at(base, path)
+        if t in (T_LIST, T_SET) and f0[2][1] == T_BINARY and f0[2][2] and (k, fid) not in seen_lb:
+            seen_lb.add((k, fid))
+            for ln in boundary_lengths(False):
+                tree = copy.deepcopy(base)
+                f = node_at(tree, path)
+                tag, et, its, decl = f[2]
+                f[2] = (tag, et, [bytes(0x61 + (i % 26) for i in range(ln))] + list(its[1:]), decl)
+                out.append((reassemble(data, L, tree), f"length-sweep:{k}.{FNAME.get((k, fid), fid)}[0]={ln}"))
     for (k, fid), path in kinds.items():
         dense = k == "Statistics"          # allocated with the arena's default alignment: every length of the window
         for ln in boundary_lengths(dense):
